@@ -2,6 +2,7 @@
     Proved by symbolic execution of the chain go2v extracts from attribute_query.go, for all queries, metadata, user
     records and key states. *)
 From Saml Require Import Base.Bytes Idp.FactTypes Gen.Facts Idp.Sso Idp.Callback Core.Attrs Idp.AttrQuery.
+From Saml Require Import Idp.BuilderTypes Idp.Builder Xml.Unmarshal Idp.AuthnOf Idp.RequestsOf.
 From Saml Require Import Idp.BuilderTypes Idp.Builder Idp.BuiltDoc.
 From Saml Require Import Xml.SchemaTypes Xml.Schema Gen.Schema Xml.SamlSpec.
 
@@ -84,8 +85,15 @@ Theorem C12_built_response : forall reqid issuer sp email full given sur userid 
     at_ d ["Assertion"; "Conditions"; "NotOnOrAfter"]%string = Some (DStr until)).
 Proof. exact attrquery_response_fields. Qed.
 
+(** decoding: the model's decode oracle is, below the codec, a function of the request document -- Unmarshal over the generated
+    schema followed by the projection onto the fields the handler reads ([aquery_of_doc], Idp/RequestsOf.v); the harness checks it against
+    the handler's own decoder on every case; content after the root element is refused *)
+Theorem C12_trailing_content_refused : forall doc, aquery_of_doc true doc = None.
+Proof. exact aquery_trailing_refused. Qed.
+
 Print Assumptions C12_answered.
 Print Assumptions C12_filter.
 Print Assumptions C12_fail_facts.
 Print Assumptions C12_schema.
 Print Assumptions C12_built_response.
+Print Assumptions C12_trailing_content_refused.
